@@ -1872,4 +1872,99 @@ theorem tryFromIint_spec {w n k p : Nat} (hw : 1 ≤ w) (hk : k ≤ w * n)
     omega
 end UI
 
+theorem restAll_spec (x : List Nat) (pad : Nat) : ∀ (f i : Nat), f + i = x.length →
+    restAll x pad f i = .ok (decide (x.drop i = List.replicate (x.length - i) pad)) := by
+  intro f
+  induction f with
+  | zero =>
+    intro i hi
+    have : i = x.length := by omega
+    subst this
+    simp [restAll]
+  | succ f ih =>
+    intro i hi
+    unfold restAll
+    have hin : i < x.length := by omega
+    rw [if_pos hin, idx_eq hin, Outcome.bind_ok, List.drop_eq_getElem_cons hin]
+    obtain ⟨j, hj⟩ : ∃ j, x.length - i = j + 1 := ⟨x.length - i - 1, by omega⟩
+    rw [hj, List.replicate_succ]
+    by_cases hd : x[i] = pad
+    · simp only [hd, bne_self_eq_false, Bool.false_eq_true, if_false]
+      rw [ih (i + 1) (by omega), show x.length - (i + 1) = j by omega]
+      congr 1
+      simp
+    · have hne : (x[i] != pad) = true := by simp [hd]
+      rw [if_pos hne]
+      congr 1
+      simp only [false_eq_decide_iff]
+      intro h
+      injection h with h1 _
+      exact hd h1
+
+theorem eq_zero_of_U_eq_zero {w n : Nat} {x : List Nat} (hx : WF w n x) (h : U w x = 0) :
+    x = List.replicate n 0 :=
+  U_injective hx (WF_zero w n) (by rw [h]; exact (U_zero w n).symm)
+
+theorem eq_max_of_U_eq {w n : Nat} {x : List Nat} (hx : WF w n x) (h : U w x = M w n - 1) :
+    x = List.replicate n (B w - 1) :=
+  U_injective hx (WF_allOnes w n) (by rw [h]; exact (U_allOnes w n).symm)
+
+/-- decomposition of a value at digit `i` -/
+theorem split_at {w n : Nat} {x : List Nat} (hx : WF w n x) {i : Nat} (hi : i ≤ n) :
+    U w x = U w (x.take i) + B w ^ i * U w (x.drop i) ∧ U w (x.take i) < B w ^ i
+    ∧ U w (x.drop i) < M w (n - i) ∧ M w n = B w ^ i * M w (n - i)
+    ∧ (x.drop i = List.replicate (n - i) 0 ↔ U w (x.drop i) = 0)
+    ∧ (x.drop i = List.replicate (n - i) (B w - 1) ↔ U w (x.drop i) = M w (n - i) - 1) := by
+  have h1 := U_take_add_drop w x i
+  rw [hx.1, Nat.min_eq_left hi] at h1
+  have h2 := U_lt (WF_take i hx)
+  rw [Nat.min_eq_left hi, M_eq_pow] at h2
+  have hd := WF_drop i hx
+  refine ⟨h1, h2, U_lt hd, ?_, ?_, ?_⟩
+  · rw [M_eq_pow, M_eq_pow, ← Nat.pow_add]; congr 1; omega
+  · constructor
+    · intro h; rw [h]; exact U_replicate_zero w _
+    · exact eq_zero_of_U_eq_zero hd
+  · constructor
+    · intro h; rw [h]; exact U_replicate_max w _
+    · exact eq_max_of_U_eq hd
+
+theorem take_bnot (w : Nat) (x : List Nat) (i : Nat) : (bnot w x).take i = bnot w (x.take i) := by
+  unfold bnot; rw [List.map_take]
+
+/-- the primitive result shape of a checked conversion into a primitive -/
+def ConvOkP (t : PTy) (o : Outcome (Option Nat)) (z : Int) : Prop :=
+  (repOf t.signed (B t.bits) z ∧ ∃ q, o = .ok (some q) ∧ q < B t.bits ∧ PInt.val t q = z)
+  ∨ (¬ repOf t.signed (B t.bits) z ∧ o = .ok none)
+
+theorem ConvOkP.ne_panic {t : PTy} {o : Outcome (Option Nat)} {z : Int} (h : ConvOkP t o z) :
+    o ≠ .panic := by
+  rcases h with ⟨_, q, rfl, _⟩ | ⟨_, rfl⟩ <;> (intro h; cases h)
+
+theorem ConvOkP.ok_iff {t : PTy} {o : Outcome (Option Nat)} {z : Int} (h : ConvOkP t o z) :
+    (∃ q, o = .ok (some q)) ↔ repOf t.signed (B t.bits) z := by
+  rcases h with ⟨h1, q, rfl, _⟩ | ⟨h1, rfl⟩
+  · exact ⟨fun _ => h1, fun _ => ⟨q, rfl⟩⟩
+  · constructor
+    · rintro ⟨q, hq⟩; cases hq
+    · intro h; exact absurd h h1
+
+theorem ConvOkP.value {t : PTy} {o : Outcome (Option Nat)} {z : Int} (h : ConvOkP t o z)
+    {q : Nat} (hq : o = .ok (some q)) : q < B t.bits ∧ PInt.val t q = z := by
+  rcases h with ⟨_, q', rfl, h2, h3⟩ | ⟨_, rfl⟩
+  · injection hq with hq; injection hq with hq; subst hq; exact ⟨h2, h3⟩
+  · cases hq
+
+/-- facts about where the assembling loops stop when `K = c * w` -/
+theorem asm_stop {w c n i' : Nat} (hw : 1 ≤ w) (h4 : i' = n ∨ c * w ≤ i' * w)
+    (h5 : ∀ j, j < i' → j * w < c * w) : i' ≤ c ∧ (i' = n ∨ i' = c) := by
+  have hic : i' ≤ c := by
+    by_contra hc
+    have := h5 c (by omega)
+    omega
+  refine ⟨hic, ?_⟩
+  rcases h4 with h | h
+  · exact Or.inl h
+  · exact Or.inr (Nat.le_antisymm hic (Nat.le_of_mul_le_mul_right h (by omega)))
+
 end Bnum
